@@ -180,11 +180,24 @@ pub fn run(ws: &[&str]) -> String {
     }
     macro_rules! base_client {
         ($ty:ident) => {{
-            let mut c = $ty::new(ClientId::new(id.clone())).set_auth_type(auth.clone());
+            // in half of the cases every setter is first called with a value that is then
+            // superseded: the last call must win (rotated secret, changed auth type / redirect)
+            let twice = (id.len() + urlorig.len()) % 2 == 0;
+            let mut c = $ty::new(ClientId::new(id.clone()));
+            if twice {
+                c = c.set_auth_type(match auth { AuthType::BasicAuth => AuthType::RequestBody, _ => AuthType::BasicAuth });
+            }
+            c = c.set_auth_type(auth.clone());
             if let Some(s) = secret.clone() {
+                if twice {
+                    c = c.set_client_secret(ClientSecret::new("superseded-secret".to_string()));
+                }
                 c = c.set_client_secret(ClientSecret::new(s));
             }
             if let Some(r) = defred.clone() {
+                if twice {
+                    c = c.set_redirect_uri(RedirectUrl::new("https://superseded.example/cb".to_string()).unwrap());
+                }
                 c = c.set_redirect_uri(r);
             }
             c
